@@ -406,6 +406,12 @@ def handle_counterexample(prop, ob, name, r, findings, tier, seed, lines, rec):
     if rr.get('error'):
         lines.append(f'HARNESS-ERROR property={prop} obligation={name}: replay crashed: {rr["error"][:400]}')
         return 'replay_error', 0, True
+    if not rr.get('reproduced', False) and 'StubGap' in (r.get('message') or ''):
+        # the code under analysis uses something the stubs do not model, and the real package behaves as specified
+        # on the same input: the obligation is not decided (reported, never a verdict)
+        lines.append(f'INCONCLUSIVE property={prop} obligation={name}: stub gap ({(r.get("message") or "")[:200]}); '
+                     f'the candidate {r.get("args")} behaves as specified on the unmodified package')
+        return 'inconclusive', 0, False
     if not rr.get('reproduced', False):
         lines.append(f'HARNESS-ERROR property={prop} obligation={name}: counterexample {r.get("args")} does not '
                      f'reproduce on the unmodified package ({str(rr.get("detail"))[:300]}): encoding or stub is wrong')
